@@ -1390,6 +1390,36 @@ func TestGen(t *testing.T) {
 		ws := append([]byte(" \n\t"), enc.json...)
 		rc.dispatchCases(ws, enc.e.Name+":json-ws")
 	}
+	// JSON objects carrying the keys of two sibling types at once are accepted by both decoders of a duty
+	// type with a fallback (Go ignores unknown keys): they make the order of the two attempts observable
+	mergeJSON := func(a, b []byte) []byte {
+		var ma, mb map[string]json.RawMessage
+		if json.Unmarshal(a, &ma) != nil || json.Unmarshal(b, &mb) != nil {
+			return nil
+		}
+		for k, v := range mb {
+			if _, dup := ma[k]; !dup {
+				ma[k] = v
+			}
+		}
+		out, _ := json.Marshal(ma)
+		return out
+	}
+	firstOf := func(goType string) []byte {
+		for _, enc := range encs {
+			if enc.e.GoType == goType {
+				return enc.json
+			}
+		}
+		return nil
+	}
+	for _, pair := range [][2]string{{"VersionedAggregatedAttestation", "AggregatedAttestation"}, {"SignedAggregateAndProof", "VersionedSignedAggregateAndProof"},
+		{"VersionedSignedProposal", "VersionedAttestation"}} {
+		if m := mergeJSON(firstOf(pair[0]), firstOf(pair[1])); m != nil {
+			rc.dispatchCases(m, "merged-json:"+pair[0]+"+"+pair[1])
+			ev.explore(rc, dutyTypes, m, "json", "merged:"+pair[0]+"+"+pair[1], noKey("merged-json"))
+		}
+	}
 	for _, s := range []string{"", "{", "{}", "[]", "[{}]", "null", "[null]", "\"\"", "0", " {", "\x00{", "{\"version\":0}", " {}", "\x0b{}"} {
 		rc.dispatchCases([]byte(s), "literal:"+s)
 		ev.explore(rc, dutyTypes, []byte(s), "json", "literal", noKey("literal:"+s))
